@@ -7,73 +7,73 @@ the `!ok` path, forgetting interruptCtxCancel, removing a state re-check … bre
 namespace Ekit.Pool.Skel
 
 def expected_NewOnDemandBlockTaskPool : String :=
-  "if(initGo < 1){return};if(queueSize < 0){return};WithCancel(context);atomic.StoreInt32(&b.state);if(b.coreGo != b.initGo && b.maxGo == b.initGo){};else{if(b.coreGo == b.initGo && b.maxGo != b.initGo){}};if(!(b.initGo <= b.coreGo && b.coreGo <= b.maxGo)){return};if(b.queueBacklogRate < float64(0) || float64(1) < b.queueBacklogRate){return};return"
+  "if($1 < 1){return};else{if($2 < 0){return};else{WithCancel(context);atomic.StoreInt32(&$3.state);if($3.coreGo != $3.initGo && $3.maxGo == $3.initGo){};else{if($3.coreGo == $3.initGo && $3.maxGo != $3.initGo){}};if($3.initGo <= $3.coreGo && $3.coreGo <= $3.maxGo){if($3.queueBacklogRate < float64(0) || float64(1) < $3.queueBacklogRate){return};else{return}};else{return}}}"
 
 def expected_OnDemandBlockTaskPool_Shutdown : String :=
-  "for(){atomic.LoadInt32(state);if(atomic.LoadInt32(&recv.state) == stateCreated){return};atomic.LoadInt32(state);if(atomic.LoadInt32(&recv.state) == stateStopped){return};atomic.LoadInt32(state);if(atomic.LoadInt32(&recv.state) == stateClosing){return};atomic.CompareAndSwapInt32(state);if(atomic.CompareAndSwapInt32(&recv.state, stateRunning, stateClosing)){Close(queue);Done(interruptCtx);return}}"
+  "for(){atomic.LoadInt32(state);if(atomic.LoadInt32(&recv.state) == stateCreated){return};else{atomic.LoadInt32(state);if(atomic.LoadInt32(&recv.state) == stateStopped){return};else{atomic.LoadInt32(state);if(atomic.LoadInt32(&recv.state) == stateClosing){return};else{atomic.CompareAndSwapInt32(state);if(atomic.CompareAndSwapInt32(&recv.state, stateRunning, stateClosing)){Close(queue);Done(interruptCtx);return};else{continue}}}}};return"
 
 def expected_OnDemandBlockTaskPool_ShutdownNow : String :=
-  "for(){atomic.LoadInt32(state);if(atomic.LoadInt32(&recv.state) == stateCreated){return};atomic.LoadInt32(state);if(atomic.LoadInt32(&recv.state) == stateClosing){return};atomic.LoadInt32(state);if(atomic.LoadInt32(&recv.state) == stateStopped){return};atomic.CompareAndSwapInt32(state);if(atomic.CompareAndSwapInt32(&recv.state, stateRunning, stateStopped)){Close(queue);Call(interruptCtxCancel);R(queue);R(queue);range{};return}}"
+  "for(){atomic.LoadInt32(state);if(atomic.LoadInt32(&recv.state) == stateCreated){return};else{atomic.LoadInt32(state);if(atomic.LoadInt32(&recv.state) == stateClosing){return};else{atomic.LoadInt32(state);if(atomic.LoadInt32(&recv.state) == stateStopped){return};else{atomic.CompareAndSwapInt32(state);if(atomic.CompareAndSwapInt32(&recv.state, stateRunning, stateStopped)){Close(queue);Call(interruptCtxCancel);R(queue);R(queue);range{continue};return};else{continue}}}}};return"
 
 def expected_OnDemandBlockTaskPool_Start : String :=
-  "for(){atomic.LoadInt32(state);if(atomic.LoadInt32(&recv.state) == stateClosing){return};atomic.LoadInt32(state);if(atomic.LoadInt32(&recv.state) == stateStopped){return};atomic.LoadInt32(state);if(atomic.LoadInt32(&recv.state) == stateRunning){return};atomic.CompareAndSwapInt32(state);if(atomic.CompareAndSwapInt32(&recv.state, stateCreated, stateLocked)){Call(numOfGoThatCanBeCreate);Call(increaseTotalGo);for(i < n){go{atomic.AddInt32(id);Call(goroutine)}};atomic.CompareAndSwapInt32(state);return}}"
+  "for(){atomic.LoadInt32(state);if(atomic.LoadInt32(&recv.state) == stateClosing){return};else{atomic.LoadInt32(state);if(atomic.LoadInt32(&recv.state) == stateStopped){return};else{atomic.LoadInt32(state);if(atomic.LoadInt32(&recv.state) == stateRunning){return};else{atomic.CompareAndSwapInt32(state);if(atomic.CompareAndSwapInt32(&recv.state, stateCreated, stateLocked)){Call(numOfGoThatCanBeCreate);Call(increaseTotalGo);for($1 < $2){go{atomic.AddInt32(id);Call(goroutine)};continue};atomic.CompareAndSwapInt32(state);return};else{continue}}}}};return"
 
 def expected_OnDemandBlockTaskPool_States : String :=
-  "ctx.Err;if(ctx.Err() != nil){ctx.Err;return};Call(interruptCtx.Err);if(recv.interruptCtx.Err() != nil){Call(interruptCtx.Err);return};go{func{NewTicker(time);defer{Stop(ticker)};for(){select{arm[Recv(ticker.C)]{Call(sendState)};arm[ctx.Done;Recv(ctx.Done())]{Call(sendState);Close(statsChan);return};arm[Done(interruptCtx);Recv(b.interruptCtx.Done())]{Call(sendState);Close(statsChan);return}}}}};return"
+  "ctx.Err;if(ctx.Err() == nil){Call(interruptCtx.Err);if(recv.interruptCtx.Err() == nil){go{func{NewTicker(time);defer{Stop($1)};for(){select{arm[Recv($1.C)]{Call(sendState)};arm[ctx.Done;Recv(ctx.Done())]{Call(sendState);Close($2);return};arm[Done(interruptCtx);Recv(b.interruptCtx.Done())]{Call(sendState);Close($2);return}};continue};return}};return};else{Call(interruptCtx.Err);return}};else{ctx.Err;return}"
 
 def expected_OnDemandBlockTaskPool_Submit : String :=
-  "if(task == nil){return};for(){atomic.LoadInt32(state);if(atomic.LoadInt32(&recv.state) == stateClosing){return};atomic.LoadInt32(state);if(atomic.LoadInt32(&recv.state) == stateStopped){return};Call(trySubmit);if(ok || err != nil){return};Call(trySubmit);if(ok || err != nil){return}}"
+  "if($1 == nil){return};else{for(){atomic.LoadInt32(state);if(atomic.LoadInt32(&recv.state) == stateClosing){return};else{atomic.LoadInt32(state);if(atomic.LoadInt32(&recv.state) == stateStopped){return};else{Call(trySubmit);if($2 || $3 != nil){return};else{Call(trySubmit);if($2 || $3 != nil){return};else{continue}}}}};return}"
 
 def expected_OnDemandBlockTaskPool_allowToCreateGoroutine : String :=
   "RLock(mutex);defer{RUnlock(mutex)};R(queue);R(queue);R(totalGo);R(maxGo);R(queueBacklogRate);return"
 
 def expected_OnDemandBlockTaskPool_decreaseTotalGo : String :=
-  "Lock(mutex);W(totalGo);Unlock(mutex)"
+  "Lock(mutex);R(totalGo);W(totalGo);Unlock(mutex);return"
 
 def expected_OnDemandBlockTaskPool_getState : String :=
   "atomic.LoadInt32(state);Call(numOfGo);R(queue);R(queue);atomic.LoadInt32(numGoRunningTasks);return"
 
 def expected_OnDemandBlockTaskPool_goroutine : String :=
-  "NewTimer(time);Stop(idleTimer);if(!idleTimer.Stop()){Recv(idleTimer.C)};for(){select{arm[Done(interruptCtx);Recv(b.interruptCtx.Done())]{Call(decreaseTotalGo);return};arm[Recv(idleTimer.C)]{Lock(mutex);R(totalGo);W(totalGo);Call(timeoutGroup.delete);Unlock(mutex);return};arm[R(queue);Recv(queue)]{Call(timeoutGroup.isIn);if(recv.timeoutGroup.isIn(id)){Call(timeoutGroup.delete);Stop(idleTimer);if(!idleTimer.Stop()){Recv(idleTimer.C)}};if(!ok){Call(decreaseTotalGo);Call(numOfGo);if(recv.numOfGo() == 0){atomic.CompareAndSwapInt32(state);if(atomic.CompareAndSwapInt32(&recv.state, stateClosing, stateStopped)){Call(interruptCtxCancel)}};return};atomic.AddInt32(numGoRunningTasks);R(interruptCtx);atomic.AddInt32(numGoRunningTasks);Lock(mutex);R(queue);R(queue);R(totalGo);R(coreGo);R(totalGo);R(totalGo);R(maxGo);if(recv.coreGo < recv.totalGo && recv.totalGo <= recv.maxGo && noTasksToExecute){R(totalGo);W(totalGo);Unlock(mutex);return};R(initGo);R(totalGo);Call(timeoutGroup.size);if(recv.initGo < recv.totalGo-recv.timeoutGroup.size()){R(maxIdleTime);NewTimer(time);Call(timeoutGroup.add)};Unlock(mutex)}}}"
+  "NewTimer(time);Stop($1);if($1.Stop()){};else{Recv($1.C)};for(){select{arm[Done(interruptCtx);Recv(b.interruptCtx.Done())]{Call(decreaseTotalGo);return};arm[Recv($1.C)]{Lock(mutex);R(totalGo);W(totalGo);Call(timeoutGroup.delete);Unlock(mutex);return};arm[R(queue);Recv(queue)]{Call(timeoutGroup.isIn);if(recv.timeoutGroup.isIn($2)){Call(timeoutGroup.delete);Stop($1);if($1.Stop()){};else{Recv($1.C)}};if($3){atomic.AddInt32(numGoRunningTasks);R(interruptCtx);atomic.AddInt32(numGoRunningTasks);Lock(mutex);R(queue);R(queue);R(totalGo);R(coreGo);R(totalGo);R(totalGo);R(maxGo);if(recv.coreGo < recv.totalGo && recv.totalGo <= recv.maxGo && $4){R(totalGo);W(totalGo);Unlock(mutex);return};else{R(initGo);R(totalGo);Call(timeoutGroup.size);if(recv.initGo < recv.totalGo-recv.timeoutGroup.size()){R(maxIdleTime);NewTimer(time);Call(timeoutGroup.add)};Unlock(mutex)}};else{Call(decreaseTotalGo);Call(numOfGo);if(recv.numOfGo() == 0){atomic.CompareAndSwapInt32(state);if(atomic.CompareAndSwapInt32(&recv.state, stateClosing, stateStopped)){Call(interruptCtxCancel);return};else{return}};else{return}}}};continue};return"
 
 def expected_OnDemandBlockTaskPool_increaseTotalGo : String :=
-  "Lock(mutex);W(totalGo);Unlock(mutex)"
+  "Lock(mutex);R(totalGo);W(totalGo);Unlock(mutex);return"
 
 def expected_OnDemandBlockTaskPool_internalState : String :=
-  "for(){atomic.LoadInt32(state);if(state != stateLocked){return}}"
+  "for(){atomic.LoadInt32(state);if($1 == stateLocked){continue};else{return}};return"
 
 def expected_OnDemandBlockTaskPool_numOfGo : String :=
   "RLock(mutex);R(totalGo);RUnlock(mutex);return"
 
 def expected_OnDemandBlockTaskPool_numOfGoThatCanBeCreate : String :=
-  "R(initGo);R(maxGo);R(initGo);R(queue);R(initGo);if(needGo > 0){if(needGo <= allowGo){};else{}};return"
+  "R(initGo);R(maxGo);R(initGo);R(queue);R(initGo);if($1 <= 0){return};else{if($1 <= $2){return};else{return}}"
 
 def expected_OnDemandBlockTaskPool_sendState : String :=
-  "select{arm[Call(getState);Send(ch)]{};default{}}"
+  "select{arm[Call(getState);Send($1)]{};default{}};return"
 
 def expected_OnDemandBlockTaskPool_trySubmit : String :=
-  "atomic.CompareAndSwapInt32(state);if(atomic.CompareAndSwapInt32(&recv.state, state, stateLocked)){defer{atomic.CompareAndSwapInt32(state)};select{arm[ctx.Done;Recv(ctx.Done())]{ctx.Err;return};arm[Send(queue)]{Call(allowToCreateGoroutine);if(state == stateRunning && recv.allowToCreateGoroutine()){Call(increaseTotalGo);atomic.AddInt32(id);go{Call(goroutine)}};return};default{return}}};return"
+  "atomic.CompareAndSwapInt32(state);if(atomic.CompareAndSwapInt32(&recv.state, $1, stateLocked)){defer{atomic.CompareAndSwapInt32(state)};select{arm[ctx.Done;Recv(ctx.Done())]{ctx.Err;return};arm[Send(queue)]{Call(allowToCreateGoroutine);if($1 == stateRunning && recv.allowToCreateGoroutine()){Call(increaseTotalGo);atomic.AddInt32(id);go{Call(goroutine)};return};else{return}};default{return}};return};else{return}"
 
 def expected_TaskFunc_Run : String :=
   "return"
 
 def expected_WithCoreGo : String :=
-  "func{};return"
+  "func{return};return"
 
 def expected_WithMaxGo : String :=
-  "func{};return"
+  "func{return};return"
 
 def expected_WithMaxIdleTime : String :=
-  "func{};return"
+  "func{return};return"
 
 def expected_WithQueueBacklogRate : String :=
-  "func{};return"
+  "func{return};return"
 
 def expected_group_add : String :=
-  "Lock(mu);defer{Unlock(mu)};R(mp);if(!ok){W(mp[]);R(n);W(n)}"
+  "Lock(mu);defer{Unlock(mu)};R(mp);if($1){return};else{W(mp[]);R(n);W(n);return}"
 
 def expected_group_delete : String :=
-  "Lock(mu);defer{Unlock(mu)};R(mp);if(ok){R(n);W(n)};R(mp)"
+  "Lock(mu);defer{Unlock(mu)};R(mp);if($1){R(n);W(n)};R(mp);return"
 
 def expected_group_isIn : String :=
   "RLock(mu);defer{RUnlock(mu)};R(mp);return"
@@ -82,6 +82,6 @@ def expected_group_size : String :=
   "RLock(mu);defer{RUnlock(mu)};R(n);return"
 
 def expected_taskWrapper_Run : String :=
-  "defer{func{if(r != nil){}}};Call(t.Run);return"
+  "defer{func{if($1 == nil){return};else{return}}};Call(t.Run);return"
 
 end Ekit.Pool.Skel
